@@ -40,6 +40,18 @@ CLAIMED = {
              'regex-automata/statrs objects hold no managed values.',
         technique='static analysis: who-writes / who-calls / construction-site rules, per-path event balance of allocate, type-closure immutability audit on resolved MIR',
         design='2/C09'),
+    'C08': dict(
+        level='other',
+        text='Structural necessary conditions of the limit mechanism, each decided for every body/path of the crate on resolved MIR: '
+             '(1) user-function frames are built and user output expressions read only in eval_func_with_values (single door, so stdlib '
+             'functions written in the language are counted too); (2) increment_call_limit()? and check_timeout()? dominate every frame '
+             'construction, outside the trampoline loop; the depth test precedes every declaration evaluation; height = parent+1; '
+             '(3) each limit field and counter is read/written only by its mechanism; (4) each limit comparison has the documented normal form '
+             '(depth: height >= L; calls: ++count >= L; recursion: ++iterations > L; search: L permits then one violation). '
+             'NOT decided: that the counters equal the reference depth/count of an arbitrary program (needs an execution model).',
+        note='Trusted: rustc MIR; std iterator adaptor semantics (take/chain/once). Unwind paths ignored.',
+        technique='static analysis: who-may-call, dominance (must-pass-through), who-reads/writes, comparison normal-form extraction on resolved MIR',
+        design='2/C08'),
 }
 
 NA_REASONS = {
